@@ -426,7 +426,37 @@ class Flow:
             at = self.cfg.node_for(expr)
         node = self.cfg.nodes[at]
         le = node.kind == "for" and any(x is expr for x in ast.walk(node.ast.iter))
+        if not env and node.ast is not None:
+            env = self._comprehension_env(node.ast, expr, at)
         return self._canon(expr, at, env or {}, (), loop_entry=le)
+
+    def _comprehension_env(self, root, expr, at):
+        """bindings of the comprehensions that enclose `expr` below `root` (outermost first): a name bound by a comprehension
+        stands for an element of what it ranges over"""
+        chain = []
+
+        def find(n, path):
+            if n is expr:
+                chain.extend(path)
+                return True
+            for c in ast.iter_child_nodes(n):
+                if find(c, path + ([n] if isinstance(n, (ast.ListComp, ast.SetComp, ast.DictComp, ast.GeneratorExp)) else [])):
+                    return True
+            return False
+        try:
+            if not find(root, []) or not chain:
+                return {}
+        except RecursionError:
+            return {}
+        env = {}
+        for comp in chain:
+            for g in comp.generators:
+                # a generator's own iterable / conditions see the bindings of the generators before it
+                if any(x is expr for x in ast.walk(g.iter)):
+                    return env
+                it = self._canon(g.iter, at, env, ())
+                self._bind_target(g.target, ("iter", self._site(g), it), env)
+        return env
 
     def _site(self, node):
         return (getattr(node, "lineno", 0), getattr(node, "col_offset", 0))
@@ -440,6 +470,18 @@ class Flow:
         return term
 
     def subscript(self, base, key):
+        # the attribute dict that `for n, attrs in G.nodes(data=True)` yields is G.nodes[n]
+        if base[0] == "iter" and key == ("const", 1):
+            c = base[2]
+            if c[0] == "call" and c[2][0] == "attr" and c[2][2] == "nodes" and not c[3] and c[4] == (("data", ("const", True)),):
+                return ("sub", ("attr", c[2][1], "nodes"), ("sub", base, ("const", 0)))
+            if c[0] == "call" and c[2][0] == "attr" and c[2][2] == "nodes" and c[3] == (("const", True),) and not c[4]:
+                return ("sub", ("attr", c[2][1], "nodes"), ("sub", base, ("const", 0)))
+        # X[a:][i] is X[a + i] for non-negative constants
+        if base[0] == "sub" and base[2][0] == "slice" and key[0] == "const" and isinstance(key[1], int) and not isinstance(key[1], bool) and key[1] >= 0:
+            lo, hi, step = base[2][1], base[2][2], base[2][3]
+            if hi is None and step is None and lo is not None and lo[0] == "const" and isinstance(lo[1], int) and lo[1] >= 0:
+                return self.subscript(base[1], ("const", lo[1] + key[1]))
         if base[0] in ("tuple", "list") and key[0] == "const" and isinstance(key[1], int):
             elts = base[1]
             if -len(elts) <= key[1] < len(elts) and not any(e[0] == "star" for e in elts):
